@@ -794,6 +794,8 @@ func run(r *Rng, tier string, n int) {
 			Emit("pack_msg", []string{t}, "ok:"+Hx(b))
 		}
 	}
+	runOptUnpack(r, tier)
+	runMidBuffer(r, tier)
 	Stat(st)
 }
 
